@@ -457,7 +457,8 @@ def parse_facebook_url(url, allow_relative_urls=False):
         return FacebookUser(user_id)
 
     # People path
-    if splitted.path.startswith("/people"):
+    # NOTE: not the handles merely starting with "people"
+    if splitted.path == "/people" or splitted.path.startswith("/people/"):
         parts = pathsplit(splitted.path)
 
         if len(parts) < 3 or not parts[2]:
